@@ -190,3 +190,58 @@ def g4(ctx):
 def g5(ctx):
     from .c09 import k3
     return k3(ctx)
+
+
+def awaited_writes_obligations(ctx):
+    """A store mutation started in a worker thread is awaited until it is done: the `to_thread(<store mutation>)` call is the
+    direct operand of `await` - not wrapped in wait_for / a timeout / a task that can be abandoned while the thread goes on."""
+    obs = []
+    muts = ("import_one", "delete_one", "set_type", "set_description", "set_displayname", "set_color", "set_comment", "destroy")
+    n_sites = 0
+    for mname in ("xandikos.web",):
+        for fi in ctx.P.funcs_in_module(mname):
+            parents = {}
+            for p_ in ast.walk(fi.node):
+                for ch in ast.iter_child_nodes(p_):
+                    parents[id(ch)] = p_
+            for c in ast.walk(fi.node):
+                if not (isinstance(c, ast.Call) and (dotted(c.func) or "").split(".")[-1] == "to_thread" and c.args):
+                    continue
+                tgt = (dotted(c.args[0]) or "").split(".")[-1]
+                if tgt not in muts:
+                    continue
+                # only the innermost function that contains the call
+                own = c
+                skip = False
+                while id(own) in parents:
+                    own = parents[id(own)]
+                    if isinstance(own, (ast.FunctionDef, ast.AsyncFunctionDef, ast.Lambda)):
+                        skip = own is not fi.node
+                        break
+                if skip:
+                    continue
+                n_sites += 1
+                par = parents.get(id(c))
+                direct = isinstance(par, ast.Await)
+                timed = False
+                x = c
+                while id(x) in parents:
+                    x = parents[id(x)]
+                    if isinstance(x, (ast.AsyncWith, ast.With)) and any("timeout" in (dotted(i.context_expr.func) if isinstance(i.context_expr, ast.Call) else dotted(i.context_expr) or "") .lower()
+                                                                          for i in x.items if (dotted(i.context_expr.func) if isinstance(i.context_expr, ast.Call) else dotted(i.context_expr))):
+                        timed = True
+                obs.append(ctx.ob(direct and not timed, fi.qualname, "%s:%d" % (fi.module.rel, c.lineno), "store write in a worker thread is awaited to the end",
+                                  "await to_thread(%s, ...)" % tgt,
+                                  "`%s` is not awaited directly (wrapped in `%s`): giving up on the await does not stop the worker thread, so a request "
+                                  "answered as failed (423/5xx) still changes the collection and its tag afterwards"
+                                  % (src(c)[:50], (src(par)[:40] if par is not None and not isinstance(par, ast.Await) else "a timeout block"))))
+    if n_sites < 1:
+        raise AnalysisError("no to_thread(<store mutation>) site found in xandikos.web (confirmed: 1)")
+    return obs
+
+
+@rule("C08", "G6", floor=1, kind="N",
+      desc="the tag is not changed by requests that were answered as failed: a store write running in a worker thread "
+           "is awaited to completion (no wait_for / timeout around to_thread(store.import_one))")
+def g6(ctx):
+    return awaited_writes_obligations(ctx)
